@@ -445,6 +445,15 @@ func (e *SpecEnv) call(x *ast.CallExpr) *Val {
 		return &Val{T: boolT, S: "(< " + e.fr.termOf(arg(0)) + " WM@0)"}
 	case "forall", "exists":
 		return e.quant(fname, x)
+	case "res":
+		// res(Callee, n): result of the n-th call of Callee in the function under contract
+		if len(x.Args) == 2 && e.fr.callResults != nil {
+			key := exprText(x.Args[0]) + "#" + exprText2(x.Args[1])
+			if v, ok := e.fr.callResults[key]; ok {
+				return e.fr.val(v)
+			}
+		}
+		return e.fail("res(): no such call %s", exprText(x.Args[0]))
 	case "int", "int64", "uint64", "int32", "uint32", "uint8", "uint16", "int16", "int8", "uint", "mathint":
 		v := arg(0)
 		return &Val{T: mathInt, S: v.S, Math: true}
@@ -452,6 +461,9 @@ func (e *SpecEnv) call(x *ast.CallExpr) *Val {
 	if p, ok := u.C.Preds[fname]; ok {
 		if len(p.Params) != len(x.Args) {
 			return e.fail("predicate %s expects %d arguments", fname, len(p.Params))
+		}
+		if p.Opaque {
+			return e.opaquePred(p, x)
 		}
 		if e.depth > 12 {
 			return e.fail("predicate expansion too deep at %s", fname)
@@ -612,4 +624,49 @@ func (e *SpecEnv) quant(kind string, x0 *ast.CallExpr) *Val {
 		return &Val{T: boolT, S: fmt.Sprintf("(exists (%s) %s)", strings.Join(binders, " "), and(g, body.S))}
 	}
 	return e.fail("%s: wrong number of arguments", kind)
+}
+
+func exprText2(x ast.Expr) string {
+	if l, ok := x.(*ast.BasicLit); ok {
+		return l.Value
+	}
+	return exprText(x)
+}
+
+// opaquePred applies an uninterpreted symbol and (once per unit) asserts its tagged definition.
+func (e *SpecEnv) opaquePred(p *PredDef, x *ast.CallExpr) *Val {
+	u := e.fr.u
+	name := "pred_" + p.Name
+	var sorts, args []string
+	for i, pd := range p.Params {
+		so := "Int"
+		if t := e.lookupTypeIn(p.Pkg, pd.Type); t != nil {
+			so = e.sortOfType(t)
+		} else if pd.Type == "bool" {
+			so = "Bool"
+		}
+		sorts = append(sorts, so)
+		args = append(args, e.fr.termOf(e.eval(x.Args[i])))
+	}
+	if !u.specDecl[name] {
+		u.specDecl[name] = true
+		u.S.declareFun(name, sorts, "Bool")
+		vars := map[string]*Val{}
+		var binders, bvs []string
+		for i, pd := range p.Params {
+			bv := "q!" + pd.Name
+			var t types.Type = mathInt
+			if tt := e.lookupTypeIn(p.Pkg, pd.Type); tt != nil {
+				t = tt
+			}
+			vars[pd.Name] = &Val{T: t, S: bv, Math: t == mathInt}
+			binders = append(binders, fmt.Sprintf("(%s %s)", bv, sorts[i]))
+			bvs = append(bvs, bv)
+		}
+		n := &SpecEnv{fr: e.fr, vars: vars, cur: e.cur, old: e.old, pkg: e.pkgOf(p.Pkg), errs: e.errs, depth: e.depth + 1}
+		body := n.eval(p.Body.Expr).S
+		def := fmt.Sprintf("(forall (%s) (! (= %s %s) :pattern (%s)))", strings.Join(binders, " "), app(name, bvs...), body, app(name, bvs...))
+		u.defs = append(u.defs, taggedDef{pred: p.Name, formula: def})
+	}
+	return &Val{T: boolT, S: app(name, args...)}
 }
